@@ -33,6 +33,16 @@ CLAIMED = {
    note="Trusted: Go type checker, go/ssa, tables in checker/c07.go. Not covered: equality of histories over delivery schedules.",
    technique="call-graph effect classification, guard dominance on the SSA CFG, struct-field coverage, constant-string agreement",
    ref="DESIGN.md §3 C07"),
+ "C04": dict(
+   text="Static decision of the structural clauses that keep the index equal to the committed log: no retained alias of the pooled tx buffer in the indexing bulk, writable tombstone metadata with checked error, per-transaction entry state and timestamps, waiters released by the tree's logical time, entry filters, index-ahead gate, read-side filter-before-offset pipeline in sibling readers, TS-file ordering.",
+   note="Trusted: Go type checker, go/ssa, tables in checker/c04.go; entry mappers return fresh keys. Not covered: B-tree content (C10), mapper functions.",
+   technique="alias taint, loop-carried-state dataflow, guard dominance and must-pass-through on the SSA CFG",
+   ref="DESIGN.md §3 C04"),
+ "C09": dict(
+   text="Static decision of the structural clauses behind corruption detection: every tx-record reader ends in the Alh validation over all entry digests, every value read compares length and digest unless the skip flag is set, the flag is true only at a frozen list of call sites and false for proven material on verifiable paths, sequential scans and open-time checks re-validate the chain.",
+   note="Trusted: Go type checker, go/ssa, sha256, tables in checker/c09.go. Not covered: that every bit flip changes a hash; absence of panics is C16.",
+   technique="must-pass-through / guard dominance on the SSA CFG, constant-argument allow-list over the whole program",
+   ref="DESIGN.md §3 C09"),
  "C10": dict(
    text="Static decision of copy-on-write discipline of B-tree nodes (every write to a logical node field is on a fresh node, on the receiver of an in-place mutator whose call sites are all on private nodes, under a mutated() guard, or under commitLog in writeTo), lock pairing and lockset of tree/snapshot state, snapshots pinned to flushed roots, discard bounded by open snapshots, flush ordering. Necessary conditions of snapshot immutability, not equivalence with the abstract map.",
    note="Trusted: Go type checker, go/ssa, COW field table and mutator table in checker/c10.go.",
